@@ -149,8 +149,11 @@ class MolecularContainer:
                            self.conformations.values()))):
             avr_conformation.non_covalently_coupled_groups = True
         # store chain info
-        avr_conformation.chains = self.conformations[
-            self.conformation_names[0]].chains
+        avr_conformation.chains = []
+        for name in self.conformation_names:
+            for chain in self.conformations[name].chains:
+                if chain not in avr_conformation.chains:
+                    avr_conformation.chains.append(chain)
         self.conformations['AVR'] = avr_conformation
 
     def write_pka(self, filename=None, reference="neutral",
